@@ -734,6 +734,12 @@ def eval_tree(e, env):
         if e["op"] == "~" and isinstance(v, int):
             return ~v & 0xFFFFFFFFFFFFFFFF
         raise Unknown(t)
+    if k == "call" and (e.get("op") == "~" or callee_short(e) == "operator~") and len((e.get("args") or []) + ([e["recv"]] if e.get("recv") is not None else [])) == 1:
+        sub = e.get("recv") if e.get("recv") is not None else e["args"][0]          # overloaded operator~ of a flag enumeration
+        v = eval_tree(sub, env)
+        if isinstance(v, int) and not isinstance(v, bool):
+            return ~v & 0xFFFFFFFFFFFFFFFF
+        raise Unknown(t)
     if k == "call" and e.get("op") == "!":
         sub = e.get("recv") if e.get("recv") is not None else e["args"][0]
         return not eval_tree(sub, env)
